@@ -618,6 +618,101 @@ check_garbage(const unsigned char *g, size_t gn, int sof, int srcchunk, int sink
   }
 }
 
+/* a long stretch of line noise: a frame broken by an invalid escape, then L octets that are not the delimiter, then
+ * the delimiter and three frames. However long the noise is (lengths around powers of two, where a counter or a
+ * budget inside the decoder would turn over), what follows the delimiter arrives as after any other prefix. */
+static void
+check_longnoise(size_t L, int sof, int srcchunk, int sinkchunk, unsigned sel)
+{
+    const char *key = modekey(sof, srcchunk, sinkchunk);
+    static unsigned char stream[70000];
+    static const unsigned char fillers[4] = { 0x41, ESC_END, 0x00, ESC_ESC };
+    size_t sn = 0;
+    if (L + 64 > sizeof stream)
+        vh_broken("noise length %zu", L);
+    stream[sn++] = 0x41;
+    stream[sn++] = ESC;
+    stream[sn++] = 0x41; /* invalid escape */
+    memset(stream + sn, fillers[sel % 4], L);
+    sn += L;
+    const size_t gn = sn;
+    stream[sn++] = END;
+    int pi[3] = { (int)(sel % 5), (int)((sel / 5) % 5), (int)((sel / 25) % 5) };
+    for (int k = 0; k < 3; k++)
+        sn += ref_encode(sof, PAY[pi[k]].p, PAY[pi[k]].n, stream + sn);
+    RFC1055Context ctx;
+    ctx_setup(&ctx, sof);
+    Source src;
+    Sink snk;
+    struct tsrc ts;
+    static struct tsink tk;
+    mk_source(&src, &ts, srcchunk, stream, sn);
+    ts.bound = (unsigned)(3 * sn + 32);
+    unsigned char frames[8][16];
+    size_t flen[8], nf = 0;
+    int sawilseq = 0;
+    for (unsigned call = 0; call < 200; call++) {
+        mk_sink(&snk, &tk, sinkchunk);
+        int rc = rfc1055_decode(&ctx, &src, &snk);
+        if (ts.runaway) {
+            vh_fail("decode-progress", key, "noise of %zu octets: more than %u source calls", L, ts.bound);
+            return;
+        }
+        if (rc == 1 && tk.n > 0) {
+            if (nf == 8) {
+                memmove(frames, frames + 1, sizeof frames - sizeof frames[0]);
+                memmove(flen, flen + 1, sizeof flen - sizeof flen[0]);
+                nf--;
+            }
+            flen[nf] = tk.n > 16 ? 99 : tk.n;
+            memcpy(frames[nf], tk.buf, tk.n > 16 ? 16 : tk.n);
+            nf++;
+        } else if (rc == -ENODATA) {
+            break;
+        } else if (rc == -EILSEQ) {
+            sawilseq = 1;
+        } else if (rc != 1) {
+            vh_fail("resync-result", key, "noise of %zu octets: unexpected rc=%d", L, rc);
+            return;
+        }
+    }
+    VH_COUNT("long noise: frame broken by an invalid escape, then a long run without delimiter");
+    if (!sawilseq)
+        vh_fail("illegal-sequence-not-reported", key, "invalid escape in front of %zu noise octets: no call returned -EILSEQ", L);
+    int need = sof ? 2 : 3;
+    int ok = nf >= (size_t)need;
+    for (int k = 0; ok && k < need; k++) {
+        int want = pi[3 - need + k];
+        size_t at = nf - (size_t)need + (size_t)k;
+        if (flen[at] != PAY[want].n || memcmp(frames[at], PAY[want].p, PAY[want].n) != 0)
+            ok = 0;
+    }
+    if (!ok) {
+        char got[200];
+        size_t o = 0;
+        got[0] = 0;
+        for (size_t i = 0; i < nf && o < 150; i++)
+            o += (size_t)snprintf(got + o, sizeof got - o, "[%s]", flen[i] == 99 ? "long" : vh_hex(frames[i], flen[i]));
+        vh_fail("resync-after-long-noise", key, "broken frame 41 db 41, %zu octets %02x, delimiter at stream offset %zu, then %s: delivered %s, the last %d must be payloads %d,%d,%d",
+                L, fillers[sel % 4], gn, vh_hex(stream + gn + 1, sn - gn - 1), got, need, pi[0], pi[1], pi[2]);
+    }
+}
+
+static void
+u_longnoise(uint64_t idx, void *arg)
+{
+    (void)arg;
+    static const size_t centre[] = { 256, 1024, 4096, 8192, 16384, 32768, 65536, 12288 };
+    const size_t c = centre[idx % 8];
+    unsigned sel = (unsigned)(vh_unit_salt % 1000);
+    for (size_t L = c - 8; L <= c + 8; L++)
+        for (int cfg = 0; cfg < 8; cfg++) {
+            vh_case_tag("longnoise");
+            check_longnoise(L, cfg & 1, (cfg >> 1) & 1, (cfg >> 2) & 1, sel++);
+        }
+    vh_sig(0x12400000ull ^ idx);
+}
+
 /* error injection at every source position and sink position */
 static void
 check_errors(const unsigned char *p, size_t n, int sof, int srcchunk, int sinkchunk)
@@ -930,6 +1025,9 @@ harness_run(void)
         vh_unit("octets", i, u_octets, NULL);
     for (uint64_t i = 0; i < (vh_tier ? 10000u : 100u); i++)
         vh_unit("random", i, u_random, NULL);
+    for (uint64_t i = 0; i < 8; i++)
+        vh_unit("longnoise", i, u_longnoise, NULL);
+    vh_require("long noise: frame broken by an invalid escape, then a long run without delimiter");
     vh_require("every octet value behind an escape octet as raw decoder input");
     vh_require("random octets as raw decoder input");
     vh_require("encoding with a context the decoder has been working with");
